@@ -55,6 +55,72 @@ theorem MsgFrame.qinv {s s' : State} (hF : MsgFrame s s') (hS : SettleInv s) (hQ
     · exact hst u (hQ.openActive u m hm ho')
     · exact h
 
+/-- the queue invariant after the markets `D1` at the head of the market queue finished bet settlement: they moved to
+    the end of the order-book queue and their books went from ACTIVE to RESOLVED -/
+theorem qinv_after_bet {s s1 : State} {D1 : List Nat} (hS : SettleInv s) (hQ : QInv s)
+    (hsplit : s.mqueue = D1 ++ s1.mqueue) (hob1 : s1.obqueue = s.obqueue ++ D1)
+    (hst : ∀ u, u ∉ D1 → statusOf s1 u = statusOf s u) (hD1 : ∀ u ∈ D1, statusOf s1 u = some OB_RESOLVED)
+    (hm1 : s1.markets = s.markets) : QInv s1 := by
+  have hndM : (D1 ++ s1.mqueue).Nodup := by rw [← hsplit]; exact hQ.nodupM
+  have hD1q : ∀ u ∈ D1, u ∈ s.mqueue := fun u hu => by rw [hsplit]; exact List.mem_append_left _ hu
+  refine ⟨(List.nodup_append.mp hndM).2.1, ?_, ?_, ?_, ?_⟩
+  · rw [hob1]
+    refine List.nodup_append.mpr ⟨hQ.nodupO, (List.nodup_append.mp hndM).1, ?_⟩
+    intro a ha b hb e
+    subst e
+    have h1 := hQ.oResolved a ha
+    have h2 := hQ.mActive a (hD1q a hb)
+    rw [h1] at h2; cases h2
+  · intro u hu
+    have hnD : u ∉ D1 := fun hin => (List.nodup_append.mp hndM).2.2 u hin u hu rfl
+    rw [hst u hnD]
+    exact hQ.mActive u (by rw [hsplit]; exact List.mem_append_right _ hu)
+  · intro u hu
+    rw [hob1] at hu
+    rcases List.mem_append.mp hu with hu | hu
+    · have hnD : u ∉ D1 := by
+        intro hin
+        have h1 := hQ.oResolved u hu
+        have h2 := hQ.mActive u (hD1q u hin)
+        rw [h1] at h2; cases h2
+      rw [hst u hnD]; exact hQ.oResolved u hu
+    · exact hD1 u hu
+  · intro u m hm ho
+    rw [getMarket_congr hm1] at hm
+    have hnD : u ∉ D1 := by
+      intro hin
+      obtain ⟨m', hm', hr⟩ := hS.queueResolved u (hD1q u hin)
+      rw [hm] at hm'; cases hm'
+      exact open_not_resolved ho hr
+    rw [hst u hnD]
+    exact hQ.openActive u m hm ho
+
+/-- the queue invariant after the books `D2` at the head of the order-book queue were finished -/
+theorem qinv_after_ob {s1 s' : State} {D2 : List Nat} (hQ1 : QInv s1)
+    (hsplit : s1.obqueue = D2 ++ s'.obqueue) (hmq2 : s'.mqueue = s1.mqueue)
+    (hst : ∀ u, u ∉ D2 → statusOf s' u = statusOf s1 u) (hD2st : ∀ u ∈ D2, statusOf s1 u = some OB_RESOLVED)
+    (hm2 : s'.markets = s1.markets) : QInv s' := by
+  have hndO : (D2 ++ s'.obqueue).Nodup := by rw [← hsplit]; exact hQ1.nodupO
+  refine ⟨by rw [hmq2]; exact hQ1.nodupM, (List.nodup_append.mp hndO).2.1, ?_, ?_, ?_⟩
+  · intro u hu
+    rw [hmq2] at hu
+    have ha := hQ1.mActive u hu
+    have hnD : u ∉ D2 := by
+      intro hin
+      rw [hD2st u hin] at ha; cases ha
+    rw [hst u hnD]; exact ha
+  · intro u hu
+    have hnD : u ∉ D2 := fun hin => (List.nodup_append.mp hndO).2.2 u hin u hu rfl
+    rw [hst u hnD]
+    exact hQ1.oResolved u (by rw [hsplit]; exact List.mem_append_right _ hu)
+  · intro u m hm ho
+    rw [getMarket_congr hm2] at hm
+    have ha := hQ1.openActive u m hm ho
+    have hnD : u ∉ D2 := by
+      intro hin
+      rw [hD2st u hin] at ha; cases ha
+    rw [hst u hnD]; exact ha
+
 /-- One successful end-block, taken apart: the bet end-blocker is a FIFO batch with budget `betBatch` on the market
     queue (measure: pending bets), the markets `D1` it finishes are appended to the order-book queue; then the
     order-book end-blocker is a FIFO batch with budget `obBatch` on that queue (measure: unpaid participations),
@@ -87,66 +153,11 @@ theorem endBlockO_phases {s s' : State} (hI : BetIdx s) (hS : SettleInv s) (hQ :
   have hI1 := (betEndBlock_good _ _ _ _ hI h1).1
   have hS1 := betEndBlock_inv _ _ _ _ hS h1
   have hm1 := betEndBlock_markets _ _ _ _ h1
-  have hndM : (D1 ++ s1.mqueue).Nodup := by rw [← hB1.split]; exact hQ.nodupM
-  have hD1q : ∀ u ∈ D1, u ∈ s.mqueue := fun u hu => by rw [hB1.split]; exact List.mem_append_left _ hu
-  -- the queue invariant after the bet phase
-  have hQ1 : QInv s1 := by
-    refine ⟨(List.nodup_append.mp hndM).2.1, ?_, ?_, ?_, ?_⟩
-    · rw [hob1]
-      refine List.nodup_append.mpr ⟨hQ.nodupO, (List.nodup_append.mp hndM).1, ?_⟩
-      intro a ha b hb e
-      subst e
-      have h1 := hQ.oResolved a ha
-      have h2 := hQ.mActive a (hD1q a hb)
-      rw [h1] at h2; cases h2
-    · intro u hu
-      have hnD : u ∉ D1 := fun hin => (List.nodup_append.mp hndM).2.2 u hin u hu rfl
-      rw [hbk1.status u hnD]
-      exact hQ.mActive u (by rw [hB1.split]; exact List.mem_append_right _ hu)
-    · intro u hu
-      rw [hob1] at hu
-      rcases List.mem_append.mp hu with hu | hu
-      · have hnD : u ∉ D1 := by
-          intro hin
-          have h1 := hQ.oResolved u hu
-          have h2 := hQ.mActive u (hD1q u hin)
-          rw [h1] at h2; cases h2
-        rw [hbk1.status u hnD]; exact hQ.oResolved u hu
-      · exact (hbk1.resolved u hu).2
-    · intro u m hm ho
-      rw [getMarket_congr hm1] at hm
-      have hnD : u ∉ D1 := by
-        intro hin
-        obtain ⟨m', hm', hr⟩ := hS.queueResolved u (hD1q u hin)
-        rw [hm] at hm'; cases hm'
-        exact open_not_resolved ho hr
-      rw [hbk1.status u hnD]
-      exact hQ.openActive u m hm ho
+  have hQ1 : QInv s1 := qinv_after_bet hS hQ hB1.split hob1 hbk1.status (fun u hu => (hbk1.resolved u hu).2) hm1
   have hpar : s1.params = s.params := hpar1
   obtain ⟨D2, hB2, hbk2, hmq2, hpe2, hpar2⟩ := obEndBlock_batch _ s1 _ s' hS1.sortedParts hQ1.nodupO (Nat.lt_succ_self _) h2
   have hm2 := obEndBlock_markets _ _ _ _ _ h2
-  have hndO : (D2 ++ s'.obqueue).Nodup := by rw [← hB2.split]; exact hQ1.nodupO
-  have hD2st : ∀ u ∈ D2, statusOf s1 u = some OB_RESOLVED := fun u hu => (hbk2.settled u hu).1
-  have hQ2 : QInv s' := by
-    refine ⟨by rw [hmq2]; exact hQ1.nodupM, (List.nodup_append.mp hndO).2.1, ?_, ?_, ?_⟩
-    · intro u hu
-      rw [hmq2] at hu
-      have ha := hQ1.mActive u hu
-      have hnD : u ∉ D2 := by
-        intro hin
-        rw [hD2st u hin] at ha; cases ha
-      rw [hbk2.status u hnD]; exact ha
-    · intro u hu
-      have hnD : u ∉ D2 := fun hin => (List.nodup_append.mp hndO).2.2 u hin u hu rfl
-      rw [hbk2.status u hnD]
-      exact hQ1.oResolved u (by rw [hB2.split]; exact List.mem_append_right _ hu)
-    · intro u m hm ho
-      rw [getMarket_congr hm2] at hm
-      have ha := hQ1.openActive u m hm ho
-      have hnD : u ∉ D2 := by
-        intro hin
-        rw [hD2st u hin] at ha; cases ha
-      rw [hbk2.status u hnD]; exact ha
+  have hQ2 : QInv s' := qinv_after_ob hQ1 hB2.split hmq2 hbk2.status (fun u hu => (hbk2.settled u hu).1) hm2
   exact ⟨s1, D1, D2, hB1, hob1, hbk1, hB2, hbk2, hmq2, hpe2, hpar2.trans hpar, hm1, hm2.trans hm1, hI1, hS1, hQ1,
     (endBlockO_good hI h0).1, endBlockO_inv hS h0, hQ2⟩
 
